@@ -600,6 +600,25 @@ pub fn run(opts: &Opts, out: &mut Emitter, c04: bool) {
             }
         }
     }
+    // mixed scope: a block without an address (pinned to a reference, or after a token) and a block that draws from the
+    // address where that very UTxO sits, in both name orders, with and without a second UTxO to fall back on: what the
+    // one takes is taken for the other too, whatever their queries have in common
+    for pinned in [false, true] {
+        for spare in [false, true] {
+            for rev in [false, true] {
+                let mut st = vec![U { txid: 1, index: 0, addr: "A", assets: vec![("L", 5), ("X", 3)] }];
+                if spare {
+                    st.push(U { txid: 2, index: 1, addr: "A", assets: vec![("L", 5), ("X", 3)] });
+                }
+                let free = Q { name: if rev { "z0" } else { "a0" }.into(), addr: None, min: Some(vec![("X", 1)]), refs: if pinned { vec![(1u8, 0u32)] } else { vec![] }, many: false, collateral: false };
+                let homed = Q { name: "m1".into(), addr: Some("A"), min: Some(vec![("L", 1)]), refs: vec![], many: false, collateral: false };
+                emit(out, "mixed-scope", &st, &[free.clone(), homed.clone()], true);
+                // ... and a collateral block pinned to a UTxO that holds a token (never pure lovelace, pinned or not)
+                let coll = Q { name: "collateral".into(), addr: if rev { Some("A") } else { None }, min: Some(vec![("L", 1)]), refs: vec![(1u8, 0u32)], many: false, collateral: true };
+                emit(out, "mixed-scope", &st, &[homed, coll], true);
+            }
+        }
+    }
     // independent blocks: two or three blocks without an address, each pinned to its own reference or asking for a
     // token only its own UTxO holds - whatever one of them sees or takes is nothing the others can use, so each must be
     // bound exactly as it would be alone (in every name order)
